@@ -303,6 +303,19 @@ func (ld *Loaded) genFuncReplay(c *Contract, model map[string]uint64, failed []s
 	if len(res) > 0 {
 		call = strings.Join(res, ", ") + " = " + call
 	}
+	// the rebuilt pre-state must satisfy the preconditions (parts of it the
+	// harness cannot rebuild - a non-nil io.Writer field ... - make the replay void)
+	{
+		var pre []string
+		for _, a := range predArgs {
+			pre = append(pre, a)
+		}
+		_ = pre
+		for i, cl := range c.Requires {
+			// requires predicates take (p, old_p, ..., g, old_g): the same values twice
+			fmt.Fprintf(&sb, "\tif func() (ok bool) {\n\t\tdefer func() {\n\t\t\tif recover() != nil {\n\t\t\t\tok = false\n\t\t\t}\n\t\t}()\n\t\treturn %s(%s)\n\t}() == false {\n\t\tfmt.Printf(\"REPLAY-VOID requires#%d does not hold on the rebuilt pre-state: %%s\\n\", %q)\n\t\treturn\n\t}\n", cl.FnName, strings.Join(predArgs, ", "), i, cl.Text)
+		}
+	}
 	fmt.Fprintf(&sb, "\tpanicked := false\n\tfunc() {\n\t\tdefer func() {\n\t\t\tif r := recover(); r != nil {\n\t\t\t\tpanicked = true\n\t\t\t\tfmt.Printf(\"REPLAY-PANIC %%v\\n\", r)\n\t\t\t}\n\t\t}()\n\t\t%s\n\t}()\n", call)
 	sb.WriteString("\tif !panicked {\n")
 	all := append(append([]string{}, predArgs...), res...)
